@@ -153,7 +153,7 @@ func checkBuild(c *mon.Case, b c16Build) {
 			installOrderHook(c, fs, fmt.Sprintf("%s with %s #%d failing", b.Name, p.kind, k))
 			p.set(fs, k)
 			// rotate the error kind: a plain error, and kinds a wrapper might take for success or end of input
-			fs.FailErr = []error{nil, &iofs.PathError{Op: "open", Path: "/blocks/x", Err: syscall.EEXIST}, io.ErrShortWrite, context.Canceled, iofs.ErrExist, store.ErrNotFound{}, &iofs.PathError{Op: "open", Path: "/blocks/x", Err: syscall.ENOENT}}[k%7]
+			fs.FailErr = []error{nil, &iofs.PathError{Op: "open", Path: "/blocks/x", Err: syscall.EEXIST}, io.ErrShortWrite, context.Canceled, iofs.ErrExist, store.ErrNotFound{}, &iofs.PathError{Op: "open", Path: "/blocks/x", Err: syscall.ENOENT}, io.EOF}[k%8]
 			var fl ipld.Link
 			var ferr error
 			if !c.Guard(fmt.Sprintf("%s with %s #%d failing", b.Name, p.kind, k), func() {
@@ -317,6 +317,51 @@ func TestC16(t *testing.T) {
 			b := mk(c)
 			checkBuild(c, b)
 			c.Sample(map[string]any{"build": b.Name, "kind": b.Kind})
+		})
+	}
+	// one link system VALUE whose write storage is replaced between two builds: the second build's
+	// blocks have to be in the storage that is configured when it runs
+	for i := 0; i < r.Pick(6, 40); i++ {
+		i := i
+		r.Case(fmt.Sprintf("retargeted-linksystem/%d", i), map[string]any{"round": i}, func(c *mon.Case) {
+			rr := c.Rand()
+			first, second := store.New(), store.New()
+			ls := first.LinkSystem(false)
+			content1 := gen.Content(rr, "rand", 20+rr.Intn(400))
+			content2 := gen.Content(rr, "rand", 20+rr.Intn(400))
+			var l1, l2 ipld.Link
+			var err1, err2 error
+			if !c.Guard("two builds through one link system value", func() {
+				withWidth(3, func() { l1, _, err1 = builder.BuildUnixFSFile(bytes.NewReader(content1), "size-16", ls) })
+				// the owner points the same value at other storage (SetWriteStorage does the same)
+				ls.StorageWriteOpener = second.OpenWrite
+				ls.StorageReadOpener = second.OpenRead
+				switch i % 3 {
+				case 0:
+					withWidth(3, func() { l2, _, err2 = builder.BuildUnixFSFile(bytes.NewReader(content2), "size-16", ls) })
+				case 1:
+					names := gen.Names(rr, gen.FamASCII, 40)
+					entries, _, _ := childEntries(second, names)
+					l2, _, err2 = builder.BuildUnixFSShardedDirectory(8, multihash.MURMUR3X64_64, entries, ls)
+				default:
+					l2, _, err2 = builder.BuildUnixFSSymlink("elsewhere/"+fmt.Sprint(i), ls)
+				}
+			}) {
+				return
+			}
+			c.Count("builds", 2)
+			c.Count("retargeted_builds", 1)
+			if err1 != nil || err2 != nil || l1 == nil || l2 == nil {
+				c.Violation("C16|build-error", "builds through a re-targeted link system failed: %v / %v", err1, err2)
+				return
+			}
+			if _, werr := walkerFor(first).TreeSize(linkCid(l1)); werr != nil {
+				c.Violation("C16|returned-link-incomplete", "first build: %v", werr)
+			}
+			if _, werr := walkerFor(second).TreeSize(linkCid(l2)); werr != nil {
+				c.Violation("C16|returned-link-incomplete", "a build through a link system whose write storage was replaced after an earlier build returned %s, but the storage configured at that time does not hold its DAG: %v", l2, werr)
+			}
+			c.Sig(fmt.Sprintf("retargeted|%d", i%3), true)
 		})
 	}
 	// a block the codec itself refuses to write (an entry with a negative size): nothing fails in
